@@ -10,7 +10,7 @@ for f in sorted(glob.glob(os.path.join(HERE, 'seeded', '*', 'meta.json'))):
     head = head.split('—', 1)[-1].split(' - ', 1)[-1].strip().lstrip('# ')
     mx = m.get('matrix', {})
     by = []
-    KNOWN = {'C01-O6', 'C11-O2'}          # violated on the unchanged tree as known findings
+    KNOWN = {'C01-O6', 'C11-O2', 'C05-O7', 'C06-O6', 'C06-O7', 'C16-O6'}          # violated on the unchanged tree as known findings
     for pid, r in mx.get('results', {}).items():
         if r['rc'] == 1:
             by += [o for o in r['violated_obligations'] if o not in KNOWN or any(k.startswith(o.split('-')[1] + '/') for k in r['keys'])]
